@@ -46,7 +46,7 @@ ASSUMPTIONS = [
     "cache key injective (C09), restore exact (C06), atomic per-target steps",
 ]
 
-FAMILIES_QUICK = [("edits", 3), ("wipe", 5), ("lostblob", 5), ("dirs", 3), ("alias", 2), ("aliaswipe", 4), ("nocache", 4), ("tamper", 2), ("disabled", 2), ("taint", 2), ("collector", 3), ("run", 5), ("fanout", 3)]
+FAMILIES_QUICK = [("edits", 2), ("wipe", 4), ("lostblob", 4), ("dirs", 2), ("alias", 2), ("aliaswipe", 3), ("nocache", 3), ("tamper", 1), ("disabled", 2), ("taint", 2), ("collector", 2), ("run", 4), ("fanout", 3)]
 FAMILIES_THOROUGH = [(f, n * 15) for f, n in FAMILIES_QUICK]
 
 
@@ -127,10 +127,11 @@ def run(ctx):
             # a target whose blob was lost is irretrievable: mode all re-executes it when it reaches it, minimal only when an
             # executing direct dependant needs its outputs — that difference is the purpose of minimal, not a defect
             lost = lost_owners(h, ws)
-            ex_all = [x for x in o_all["executed"] if x not in lost or x in om["executed"]]
-            if set(om["executed"]) != set(ex_all):
+            ex_all = [x for x in o_all["executed"] if x not in lost]
+            ex_min = [x for x in om["executed"] if x not in lost]
+            if set(ex_min) != set(ex_all):
                 return ("the two load_outputs modes execute different sets of commands", base, "executed-set-differs")
-            if sorted(om["executed"]) != sorted(ex_all):
+            if sorted(ex_min) != sorted(ex_all):
                 return ("minimal mode executes a command more often than mode all", base, "executed-multiset-differs")
             for l in set(om["executed"]):
                 t = ws["targets"].get(l)
